@@ -1,6 +1,7 @@
 //! One module per property.
 
 pub mod common;
+pub mod endpoint;
 
 pub mod c01;
 pub mod c02;
@@ -13,5 +14,11 @@ pub mod c08;
 pub mod c09;
 pub mod c10;
 pub mod c11;
+pub mod c12;
+pub mod c13;
+pub mod c14;
+pub mod c15;
 pub mod c16;
 pub mod c17;
+pub mod c18;
+pub mod c19;
